@@ -1,6 +1,7 @@
 import HC.Driver
 import HC.Model.Core
 import HC.Model.Proof
+import HC.Spec.RefTree
 /-! Stateful part of the line-protocol driver: cores on model disks. -/
 namespace HC.Driver
 open HC HC.Codec HC.Oplog
@@ -256,6 +257,45 @@ def coreLine (w : World) (ws : List String) : Option (World × String) :=
     (match n.toNat? with
      | some n => let f := w.scratch.truncate n; some ({ w with scratch := f }, s!"ok size={f.size}")
      | none => some (w, "bad-op"))
+  | ["reftree", name, blocks] =>
+    (match (if blocks == "~" then some [] else (blocks.splitOn ",").mapM unhex), w.get? name with
+     | some bl, some h =>
+       (match h.core with
+        | none => some (w, "nocore")
+        | some c =>
+          let bs := bl.toArray
+          let len := bs.size
+          let refn := RefTree.allNodes C bs
+          let digest := fnv64 (refn.flatMap fun n => le8 n.index ++ nodeBytes n)
+          let treeFile := h.disk.tree
+          let recs := (List.range (treeFile.size / 40)).filterMap fun i =>
+            match treeFile.read (i * 40) 40 with
+            | some r => if r.all (· == 0) then none else some (i, r)
+            | none => none
+          let bad := recs.filter fun (i, r) => match refn.find? (·.index == i) with | some n => nodeBytes n != r | none => true
+          let rts := RefTree.roots C bs
+          let (sig, rootsOk) :=
+            if len = 0 then ("none", true) else
+            match (c.createProof h.disk none none none (some ⟨0, len⟩)).result with
+            | .ok (some p) =>
+              (match p.upgrade with
+               | some u =>
+                 let ok := C.verify c.publicKey (RefTree.signableOf C bs 0) u.signature
+                 ((if ok then "valid" else "INVALID"), u.nodes == rts)
+               | none => ("noproof:none", false))
+            | .ok none => ("noproof:none", false)
+            | .error _ => ("noproof:err", false)
+          let height := Nat.log2 (max len 1) + 1
+          let step := max (len / 7) 1
+          let idxs := (List.range len).filter fun i => i % step == 0
+          let pn := idxs.foldl (fun acc i =>
+            [0, 1, height - 1].foldl (fun acc nodes =>
+              match (c.createProof h.disk (some ⟨i, nodes⟩) none none none).result with
+              | .ok (some p) => acc + (match p.block with | some b => b.nodes.length | none => 0)
+              | _ => acc) acc) 0
+          let flag := if bad.isEmpty && rootsOk then "" else " MISMATCH"
+          some (w, s!"ok len={len} filenodes={recs.length} roots={rts.length} sig={sig} proofnodes={pn} ref={hex16 digest}{flag}"))
+     | _, _ => some (w, "bad-op"))
   | ["evcheck", _] => some (w, "ok")
   | ["pk", name] =>
     (match (w.get? name).bind (·.core) with
